@@ -19,6 +19,7 @@ import (
 	"kvassverif/internal/core"
 	"kvassverif/internal/e2"
 	"kvassverif/internal/sc"
+	"tkestack.io/kvass/pkg/prom"
 	"tkestack.io/kvass/pkg/target"
 )
 
@@ -299,6 +300,7 @@ func runC11(w *core.WorkerCtx, idx int) *core.CaseResult {
 		res.AddStat("api_reads_between_renderings", 4)
 	}
 	// phase 1b: a new configuration that differs ONLY in the external labels (which the configuration hash ignores)
+	curText, curOrig := text, orig
 	if len(res.Viol) == 0 {
 		specE := clone(spec)
 		specE.ExternalLabels = map[string]string{"cluster": "relabelled-" + fmt.Sprint(idx%7), "region": "eu", "replica": "z"}
@@ -308,8 +310,32 @@ func runC11(w *core.WorkerCtx, idx int) *core.CaseResult {
 				res.Inconcl = "sidecar rejected the external-label change: " + err.Error()
 				return res
 			}
+			curText, curOrig = textE, origE
 			if gb, err := in.GeneratedConfig(); err == nil {
 				compare("after a change of external labels only", textE, origE, gb, want)
+			}
+		}
+	}
+
+	// phase 1c: an operator stops and resumes scraping (POST .../status/extra_config with a changed reason, what the
+	// coordinator forwards to every shard): the file rendered after each of the two changes, and after the next
+	// ordinary targets update, is still the whole configuration
+	if len(res.Viol) == 0 && idx%2 == 0 {
+		for _, reason := range []string{"maintenance window " + fmt.Sprint(idx), ""} {
+			if code, _, err := in.Call("POST", "/api/v1/status/extra_config/", &prom.ExtraConfig{StopScrapeReason: reason}, nil); err != nil || code != 200 {
+				res.Inconcl = fmt.Sprintf("extra config update refused: %d %v", code, err)
+				return res
+			}
+			res.AddStat("extra_config_changes", 1)
+			if gb, err := in.GeneratedConfig(); err == nil {
+				compare(fmt.Sprintf("after the stop-scrape reason changed to %q", reason), curText, curOrig, gb, want)
+			}
+			if len(res.Viol) == 0 {
+				if err := in.UpdateTargets(assign); err == nil {
+					if gb, err := in.GeneratedConfig(); err == nil {
+						compare(fmt.Sprintf("after the stop-scrape reason changed to %q and the assignment was sent again", reason), curText, curOrig, gb, want)
+					}
+				}
 			}
 		}
 	}
@@ -426,6 +452,7 @@ func init() {
 		Level: "exploration",
 		Rule: "differential against the vendored Prometheus loader: case = generated configuration (1-4 jobs, every auth kind: basic, bearer_token, authorization, tls (files or inline), oauth2; SD kinds static/file/kubernetes/dns/http; global, rule files, alerting with and without credentials, 0-2 remote_write and remote_read entries with bearer tokens / passwords / authorization, all secrets unique recognisable strings) + an assignment (jobs with 0/1/2/5 targets, optionally targets of a job that does not exist) + self-monitoring on/off, pushed through a real sidecar's API; then a configuration differing only in external labels, then a second configuration (a job added, the last job removed, a setting changed) while targets are assigned, then a changed assignment under it - the file is re-checked after each phase; in a third of the cases the write of the generated file fails once while the second configuration is applied, after which the coordinator's usual actions must bring the file to that configuration; plus 4/24 cases on the REAL `kvass sidecar` process restarted twice on its volume (the file must list the resumed assignment); plus overlap cases: a slow call (40-job configuration / 2400-target assignment) and a fast call of the other kind reach one sidecar 0-15 ms apart in 8 rounds, after both returned the file must show the pushed configuration and the posted assignment; " +
 			"the generated file is loaded with config.Load and compared field-wise with the loaded original (jobs and order, static entries <-> assigned hashes, scheme/proxy/auth removal, kept settings, byte scan for job secrets, global/rules/alerting/remote sections via YAML rendering plus a reflective walk over every Secret value); " +
+			"every second case sets and clears the stop-scrape reason through /api/v1/status/extra_config/ and re-checks the file after each change and after the next targets update; " +
 			"non-trivial = every case the sidecar accepts; distinct = hash of the text, self-monitor flag and assignment size",
 		Assumptions: []string{"secrets use a YAML-plain alphabet (no quoting needed)", "sections are compared through yaml.Marshal of the loaded structs plus the reflective secret walk"},
 		NumCases: func(tier string) int {
